@@ -435,6 +435,8 @@ def r03_6(ctx):
 
 
 def run(ctx):
+    from .sweep import r03_7 as _r03_7
+    _r03_7(ctx)
     # under spawn / forkserver the worker object reaches the child by pickling: what __reduce__ writes must be what the
     # rebuild callable binds, position by position (a handshake queue that is dropped = a worker that never waits for the verdict)
     from .reduce import r12_1 as _r12_1
